@@ -48,6 +48,8 @@ I_CvConsistency == CvConsistency(P, st)
 I_BarrierGroups == BarrierGroups(P, st)
 I_PhaseConsistency == PhaseConsistency(P, st)
 I_CommExactlyOnce == CommExactlyOnce(P, st)
+I_Lifecycle == Lifecycle(P, st)
+I_FailureReported == FailureReported(P, st)
 Inv == KernelInv(P, st)
 
 \* C03: the clock never goes backwards; C04: FIFO hand-off of mutexes; C05/C06: FIFO queues only shrink from the head
